@@ -135,6 +135,9 @@ func ruleErrPolarity(c *Ctx, r *Rep) {
 							if _, isPhi := use.(*ssa.Phi); isPhi {
 								continue
 							}
+							if ret, isRet := use.(*ssa.Return); isRet && returnsNonNilError(ret) {
+								continue // handed back beside the error: by convention not looked at
+							}
 							bad, badPos = sprintf("result %d of the failed call to %s is used where the error is known to be non-nil", co.Index, calleeFullName(call)), use.Pos()
 						}
 					}
